@@ -6,6 +6,7 @@ C11-ESCAPES   every escape the printer emits is accepted by the reader with the 
 """
 from jv.facts import Program, AnalysisBroken
 from jv.callgraph import CallGraph
+from jv import flow
 from jv.util import is_ref, is_mem, strip_casts, switch_cases, case_name, case_map
 
 EXPLANATION = (
@@ -270,6 +271,8 @@ def run(chk):
     _fmtbuf_rule(chk, prog)
     _argsync_rule(chk, prog)
     _symclass_rule(chk, prog)
+    _utf8bound_rule(chk, prog)
+    _jdnnum_rule(chk, prog)
 
 
 def _argsync_rule(chk, prog):
@@ -362,3 +365,77 @@ def _symclass_rule(chk, prog):
     else:
         chk.violation(rule, "pp.c", "contains_bad_chars", "class:empty", pr.loc,
                       "the empty symbol is not refused: it prints as no text at all and cannot be read back")
+
+
+def _utf8bound_rule(chk, prog):
+    """janet_valid_utf8 is given bytes and a length; the parser calls it on its token buffer, which is not terminated
+    and still holds bytes of earlier tokens behind the current one.  The end of a multi-byte sequence is computed from
+    its lead byte, so it has to be compared with the length before the trailing bytes are read - otherwise whether a
+    token that ends in a cut-off sequence is accepted depends on what was parsed before it (and a clone, whose buffer
+    is fresh, disagrees with the original)."""
+    rule = "C11-UTF8BOUND"
+    chk.rule(rule, "janet_valid_utf8 reads a trailing byte only on paths that compared the computed end of the sequence with the length it was given")
+    fn = prog.need_func("janet_valid_utf8", "parse.c")
+    chk.analysed(fn)
+    lenp = fn.params[1]["n"]
+    strp = fn.params[0]["n"]
+    sites = [x for x in fn.nodes if x.k == "sub" and is_ref(strip_casts(x.kids[0]), strp) and
+             not (strip_casts(x.kids[1]).k == "ref" and strip_casts(x.kids[1]).name == "i")]
+    if not sites:
+        raise AnalysisBroken("janet_valid_utf8: no trailing-byte reads found")
+    IN, T = flow.condition_facts(fn)
+    res = {}
+    for x, S in flow.states_at(fn, IN, T):
+        for sx in sites:
+            if x is sx:
+                res[id(sx)] = bool(S) and all(any(lenp in toks and len(toks) >= 2 and not ({"i", lenp} == set(toks))
+                                                  for (op, l, r, toks, ln, rn) in ps) for ps in S)
+    n = 0
+    for sx in sites:
+        if id(sx) not in res:
+            continue
+        n += 1
+        chk.instance(rule)
+        if res[id(sx)]:
+            chk.ok(rule, "janet_valid_utf8: `%s` after the end of the sequence was compared with the length" % sx.text())
+        else:
+            chk.violation(rule, "parse.c", "janet_valid_utf8", "unbounded:" + sx.text().replace(" ", ""), sx.loc,
+                          "`%s` is read although only the start of the sequence (i < %s) is known to be inside the bytes given: for a "
+                          "sequence cut off at the end, what lies behind the token decides whether it is valid" % (sx.text(), lenp))
+    chk.floor(rule, 2, n)
+
+
+def _jdnnum_rule(chk, prog):
+    """%j promises text that reads back as the same number, which takes 17 significant digits.  The general number
+    printer uses DBL_DIG (15) outside the exact-integer range, so the data-notation printer may not route any number
+    through it: every double above 2^53 is a whole number and would lose its last digits."""
+    rule = "C11-JDNNUM"
+    chk.rule(rule, "the data-notation printer formats numbers only through the 17-digit formatter (never through a formatter with fewer significant digits)")
+    fn = prog.need_func("print_jdn_one", "pp.c")
+    chk.analysed(fn)
+    import re as _re
+    lossy = {}
+    for g in prog.all_funcs():
+        if g.calls("snprintf"):
+            for y in g.nodes:
+                if y.k == "str":
+                    for m in _re.finditer(r"%[.](\d+)g", y.d.get("s", "")):
+                        if int(m.group(1)) < 17:
+                            lossy[g.name] = int(m.group(1))
+    if not lossy:
+        raise AnalysisBroken("no %.<P>g formatter with P < 17 found (number_to_string_b expected)")
+    n = 0
+    for c in fn.nodes:
+        if c.k == "call" and c.callee:
+            n += 1
+            if c.callee in lossy:
+                chk.instance(rule)
+                chk.violation(rule, "pp.c", "print_jdn_one", "lossy:" + c.callee, c.loc,
+                              "`%s` formats with %d significant digits: a number that needs 16 or 17 (every double above 2^53 is a "
+                              "whole number) is printed as text that parses back to a different value" % (c.text()[:50], lossy[c.callee]))
+    chk.instance(rule)
+    if fn.calls("janet_buffer_dtostr"):
+        chk.ok(rule, "print_jdn_one: numbers go through janet_buffer_dtostr (%%.17g); lossy formatters %s are not called" % sorted(lossy))
+    else:
+        chk.violation(rule, "pp.c", "print_jdn_one", "no-17-digit-path", fn.loc, "print_jdn_one no longer calls the 17-digit formatter")
+    chk.floor(rule, 1)
